@@ -35,7 +35,13 @@ def bodies():
             ("comp_div_cmp", "b", "({i} // {i}) < {i}"), ("comp_cmp_div", "i", "{i} / (({i} < {i}) + {i})"),
             ("comp_bits", "i", "LinComb.from_bits({i}.to_bits()) % {i}"), ("comp_abs_pow", "i", "abs({i}) ** ({i} & 3)"),
             ("comp_bool", "b", "LinCombBool({i} - {i}) | ({i} > {K})"), ("comp_assert", None, "({i} * {i}).assert_lt({i} + {K})"),
-            ("comp_fxp", "f", "({f} / {f}) * {c} - {i}")]
+            ("comp_fxp", "f", "({f} / {f}) * {c} - {i}"),
+            # an inexact public division followed by operations on the (dummy) quotient
+            ("comp_inexact_eq", "b", "(lambda t: ((t / {k}) * {k}) == t)({i})"), ("comp_inexact_ne", "b", "(lambda t: (t / {k}) * {k} != t)({i})"),
+            ("comp_inexact_nonzero", None, "(lambda t: ((t / {k}) * {k} - t + 1).assert_nonzero())({i})"),
+            ("comp_inexact_div", "i", "(lambda t: {i} / ((t / {k}) * {k} - t + 1))({i})"),
+            ("comp_inexact_zero", "b", "(lambda t: ((t / {k}) * {k} - t).check_zero())({i})"),
+            ("comp_inexact_cmp", "b", "({i} / {k}) < {i}"), ("comp_inexact_bits", "i", "LinComb.from_bits(({i} / {k}).to_bits())")]
     return out
 
 
